@@ -118,7 +118,7 @@ func (c *Collection) handleReplaceByName() (err error) {
 		prior.next = n
 		prior = n
 	}
-	tail := &node{}
+	tail := &node{prev: prior}
 	prior.next = tail
 
 	// step 2, build the name index
